@@ -98,10 +98,119 @@ Fixpoint bind_params (ps : list (nat * ty)) (vs : list value) : option scope :=
   | _, _ => None
   end.
 
+(* expressions and statements, parameterised by the meaning of calls (callf) and the loop bound k *)
+Section Exec.
+Variable callf : nat -> list value -> list line -> res value.
+
+Fixpoint eval (e : expr) (en : env) (out : list line) {struct e} : res value :=
+  match e with
+  | ELit t v => Ok (VInt t v) out
+  | EBool b => Ok (VBool b) out
+  | EVar x => match lookup x en with Some v => Ok v out | None => Wrong end
+  | EBin o a b =>
+      match o with
+      | And => bind (eval a en out) (fun va out =>
+                 match va with
+                 | VBool false => Ok (VBool false) out
+                 | VBool true => bind (eval b en out) (fun vb out =>
+                                   match vb with VBool _ => Ok vb out | _ => Wrong end)
+                 | _ => Wrong end)
+      | Or => bind (eval a en out) (fun va out =>
+                 match va with
+                 | VBool true => Ok (VBool true) out
+                 | VBool false => bind (eval b en out) (fun vb out =>
+                                   match vb with VBool _ => Ok vb out | _ => Wrong end)
+                 | _ => Wrong end)
+      | _ =>
+        bind (eval a en out) (fun va out =>
+        bind (eval b en out) (fun vb out =>
+          match va, vb with
+          | VInt t x, VInt t' y =>
+              if ity_eqb t t' then
+                if is_arith o then
+                  match arith o t x y with Some z => Ok (VInt t z) out | None => Undef out end
+                else match compare o x y with Some c => Ok (VBool c) out | None => Wrong end
+              else Wrong
+          | VBool x, VBool y =>
+              match o with
+              | Eq => Ok (VBool (Bool.eqb x y)) out
+              | Ne => Ok (VBool (negb (Bool.eqb x y))) out
+              | _ => Wrong
+              end
+          | _, _ => Wrong
+          end))
+      end
+  | EUn Neg a => bind (eval a en out) (fun va out =>
+                   match va with VInt t x => Ok (VInt t (wrap t (- x))) out | _ => Wrong end)
+  | EUn Not a => bind (eval a en out) (fun va out =>
+                   match va with VBool b => Ok (VBool (negb b)) out | _ => Wrong end)
+  | ECast a t => bind (eval a en out) (fun va out =>
+                   match va with VInt _ x => Ok (VInt t (wrap t x)) out | _ => Wrong end)
+  | ECall g es =>
+      (fix evals (es : list expr) (acc : list value) (out : list line) {struct es} : res value :=
+         match es with
+         | [] => callf g (rev acc) out
+         | e1 :: r => bind (eval e1 en out) (fun v out => evals r (v :: acc) out)
+         end) es [] out
+  end.
+
+Definition pop_scope (r : env * flow) : env * flow := (tl (fst r), snd r).
+
+Fixpoint exec (k : nat) (s : stmt) (en : env) (out : list line) {struct s} : res (env * flow) :=
+  match s with
+  | SSkip => Ok (en, FNormal) out
+  | SSeq a b => bind (exec k a en out) (fun r out =>
+                  match r with
+                  | (en', FNormal) => exec k b en' out
+                  | other => Ok other out
+                  end)
+  | SLet x _ e => bind (eval e en out) (fun v out => Ok (declare x v en, FNormal) out)
+  | SAssign x e => bind (eval e en out) (fun v out =>
+                     match update x v en with Some en' => Ok (en', FNormal) out | None => Wrong end)
+  | SIf c a b => bind (eval c en out) (fun vc out =>
+                   match vc with
+                   | VBool true => bind (exec k a ([] :: en) out) (fun r out => Ok (pop_scope r) out)
+                   | VBool false => bind (exec k b ([] :: en) out) (fun r out => Ok (pop_scope r) out)
+                   | _ => Wrong
+                   end)
+  | SBlock a => bind (exec k a ([] :: en) out) (fun r out => Ok (pop_scope r) out)
+  | SWhile c body =>
+      (fix loop (n : nat) (en : env) (out : list line) {struct n} : res (env * flow) :=
+         match n with
+         | O => Fuel
+         | S n' =>
+           bind (eval c en out) (fun vc out =>
+             match vc with
+             | VBool false => Ok (en, FNormal) out
+             | VBool true =>
+                 bind (exec k body ([] :: en) out) (fun r out =>
+                   match snd r with
+                   | FBreak => Ok (tl (fst r), FNormal) out
+                   | FReturn v => Ok (tl (fst r), FReturn v) out
+                   | _ => loop n' (tl (fst r)) out
+                   end)
+             | _ => Wrong
+             end)
+         end) k en out
+  | SBreak => Ok (en, FBreak) out
+  | SContinue => Ok (en, FContinue) out
+  | SReturn None => Ok (en, FReturn VUnit) out
+  | SReturn (Some e) => bind (eval e en out) (fun v out => Ok (en, FReturn v) out)
+  | SPrint es =>
+      (fix prints (es : list expr) (acc : line) (out : list line) {struct es} : res (env * flow) :=
+         match es with
+         | [] => Ok (en, FNormal) (out ++ [rev acc])
+         | e1 :: r => bind (eval e1 en out) (fun v out =>
+                        match item_of v with Some it => prints r (it :: acc) out | None => Wrong end)
+         end) es [] out
+  | SExpr e => bind (eval e en out) (fun _ out => Ok (en, FNormal) out)
+  end.
+End Exec.
+
 Section WithProg.
 Variable p : prog.
 
-(* call function f with argument values; fuel decreases at every call and every loop iteration *)
+(* call function f with argument values; fuel decreases at every call; a loop runs at most `fuel` iterations *)
 Fixpoint call (fuel : nat) (f : nat) (args : list value) (out : list line) {struct fuel} : res value :=
   match fuel with
   | O => Fuel
@@ -112,107 +221,7 @@ Fixpoint call (fuel : nat) (f : nat) (args : list value) (out : list line) {stru
       match bind_params (fparams fd) args with
       | None => Wrong
       | Some sc =>
-        let fix eval (e : expr) (en : env) (out : list line) {struct e} : res value :=
-          match e with
-          | ELit t v => Ok (VInt t v) out
-          | EBool b => Ok (VBool b) out
-          | EVar x => match lookup x en with Some v => Ok v out | None => Wrong end
-          | EBin o a b =>
-              match o with
-              | And => bind (eval a en out) (fun va out =>
-                         match va with
-                         | VBool false => Ok (VBool false) out
-                         | VBool true => bind (eval b en out) (fun vb out =>
-                                           match vb with VBool _ => Ok vb out | _ => Wrong end)
-                         | _ => Wrong end)
-              | Or => bind (eval a en out) (fun va out =>
-                         match va with
-                         | VBool true => Ok (VBool true) out
-                         | VBool false => bind (eval b en out) (fun vb out =>
-                                           match vb with VBool _ => Ok vb out | _ => Wrong end)
-                         | _ => Wrong end)
-              | _ =>
-                bind (eval a en out) (fun va out =>
-                bind (eval b en out) (fun vb out =>
-                  match va, vb with
-                  | VInt t x, VInt t' y =>
-                      if ity_eqb t t' then
-                        if is_arith o then
-                          match arith o t x y with Some z => Ok (VInt t z) out | None => Undef out end
-                        else match compare o x y with Some c => Ok (VBool c) out | None => Wrong end
-                      else Wrong
-                  | VBool x, VBool y =>
-                      match o with
-                      | Eq => Ok (VBool (Bool.eqb x y)) out
-                      | Ne => Ok (VBool (negb (Bool.eqb x y))) out
-                      | _ => Wrong
-                      end
-                  | _, _ => Wrong
-                  end))
-              end
-          | EUn Neg a => bind (eval a en out) (fun va out =>
-                           match va with VInt t x => Ok (VInt t (wrap t (- x))) out | _ => Wrong end)
-          | EUn Not a => bind (eval a en out) (fun va out =>
-                           match va with VBool b => Ok (VBool (negb b)) out | _ => Wrong end)
-          | ECast a t => bind (eval a en out) (fun va out =>
-                           match va with VInt _ x => Ok (VInt t (wrap t x)) out | _ => Wrong end)
-          | ECall g es =>
-              (fix evals (es : list expr) (acc : list value) (out : list line) {struct es} : res value :=
-                 match es with
-                 | [] => call fuel' g (rev acc) out
-                 | e1 :: r => bind (eval e1 en out) (fun v out => evals r (v :: acc) out)
-                 end) es [] out
-          end in
-        let fix exec (s : stmt) (en : env) (out : list line) {struct s} : res (env * flow) :=
-          match s with
-          | SSkip => Ok (en, FNormal) out
-          | SSeq a b => bind (exec a en out) (fun r out =>
-                          match r with
-                          | (en', FNormal) => exec b en' out
-                          | other => Ok other out
-                          end)
-          | SLet x _ e => bind (eval e en out) (fun v out => Ok (declare x v en, FNormal) out)
-          | SAssign x e => bind (eval e en out) (fun v out =>
-                             match update x v en with Some en' => Ok (en', FNormal) out | None => Wrong end)
-          | SIf c a b => bind (eval c en out) (fun vc out =>
-                           match vc with
-                           | VBool true => bind (exec a ([] :: en) out) (fun r out => Ok (tl (fst r), snd r) out)
-                           | VBool false => bind (exec b ([] :: en) out) (fun r out => Ok (tl (fst r), snd r) out)
-                           | _ => Wrong
-                           end)
-          | SBlock a => bind (exec a ([] :: en) out) (fun r out => Ok (tl (fst r), snd r) out)
-          | SWhile c body =>
-              (fix loop (k : nat) (en : env) (out : list line) {struct k} : res (env * flow) :=
-                 match k with
-                 | O => Fuel
-                 | S k' =>
-                   bind (eval c en out) (fun vc out =>
-                     match vc with
-                     | VBool false => Ok (en, FNormal) out
-                     | VBool true =>
-                         bind (exec body ([] :: en) out) (fun r out =>
-                           match snd r with
-                           | FBreak => Ok (tl (fst r), FNormal) out
-                           | FReturn v => Ok (tl (fst r), FReturn v) out
-                           | _ => loop k' (tl (fst r)) out
-                           end)
-                     | _ => Wrong
-                     end)
-                 end) fuel' en out
-          | SBreak => Ok (en, FBreak) out
-          | SContinue => Ok (en, FContinue) out
-          | SReturn None => Ok (en, FReturn VUnit) out
-          | SReturn (Some e) => bind (eval e en out) (fun v out => Ok (en, FReturn v) out)
-          | SPrint es =>
-              (fix prints (es : list expr) (acc : line) (out : list line) {struct es} : res (env * flow) :=
-                 match es with
-                 | [] => Ok (en, FNormal) (out ++ [rev acc])
-                 | e1 :: r => bind (eval e1 en out) (fun v out =>
-                                match item_of v with Some it => prints r (it :: acc) out | None => Wrong end)
-                 end) es [] out
-          | SExpr e => bind (eval e en out) (fun _ out => Ok (en, FNormal) out)
-          end in
-        bind (exec (fbody fd) [sc] out) (fun r out =>
+        bind (exec (call fuel') fuel' (fbody fd) [sc] out) (fun r out =>
           match snd r with
           | FReturn v => Ok v out
           | FNormal => Ok VUnit out
